@@ -138,6 +138,88 @@ def pieces_of(raw: bytes, sizes):
     return out
 
 
+class ShortReadStream(io.RawIOBase):
+    """Raw stream without fileno whose read(n)/readinto hand out random non-empty pieces shorter than requested
+    before EOF (seeded from the case).  `seekable=False`: tell()/seek() raise like a pipe's."""
+
+    def __init__(self, data: bytes, seed: int, maxpiece: int, seekable: bool):
+        super().__init__()
+        self._data, self._pos, self._rng, self._max, self._seekable = data, 0, random.Random(seed), max(1, maxpiece), seekable
+
+    def readable(self):
+        return True
+
+    def seekable(self):
+        return self._seekable
+
+    def tell(self):
+        if not self._seekable:
+            raise io.UnsupportedOperation("tell")
+        return self._pos
+
+    def seek(self, pos, whence=0):
+        if not self._seekable:
+            raise io.UnsupportedOperation("seek")
+        self._pos = {0: pos, 1: self._pos + pos, 2: len(self._data) + pos}[whence]
+        return self._pos
+
+    def readinto(self, b):
+        left = len(self._data) - self._pos
+        if left <= 0 or len(b) == 0:
+            return 0
+        n = min(len(b), left, self._rng.randint(1, self._max))
+        b[:n] = self._data[self._pos:self._pos + n]
+        self._pos += n
+        return n
+
+
+def short_stream(b, seekable):
+    raw = gen_bytes(b["pat"], b["size"], b["seed"])
+    maxpiece = b.get("maxpiece", 4096)
+    if b["size"] // maxpiece > 3000:
+        maxpiece = b["size"] // 3000 + 1
+    return ShortReadStream(raw, b["seed"], maxpiece, seekable)
+
+
+def pipe_stream(b, cleanups):
+    """Read end of a real os.pipe() opened with buffering=0, fed by a writer thread in seeded chunks."""
+    import threading
+    raw = gen_bytes(b["pat"], b["size"], b["seed"])
+    rfd, wfd = os.pipe()
+    rng = random.Random(b["seed"])
+
+    def feed():
+        try:
+            p = 0
+            while p < len(raw):
+                n = rng.choice((1, 100, 4096, 30000, 65536, 100000))
+                os.write(wfd, raw[p:p + n])
+                p += n
+        except OSError:
+            pass
+        finally:
+            try:
+                os.close(wfd)
+            except OSError:
+                pass
+
+    f = os.fdopen(rfd, "rb", buffering=0)
+    t = threading.Thread(target=feed, daemon=True)
+    t.start()
+
+    def cleanup():
+        try:
+            f.close()            # a blocked writer gets EPIPE
+        except OSError:
+            pass
+        t.join(5)
+    cleanups.append(cleanup)
+    return f
+
+
+STREAM_KINDS = ("rawio", "rawio_unseek", "pipe")
+
+
 # ------------------------------------------------------------------------------------------------
 # the duplex pipe
 
@@ -358,6 +440,7 @@ class Bed:
         self.files: dict = {}
         self.cur: dict | None = None
         self.srv: dict = {}
+        self.cleanups: list = []
         self.log = _LogCatch()
         self._loggers = []
         for n in ("aiohttp.server", "aiohttp.web", "aiohttp.access", "aiohttp.client", "aiohttp.internal", "asyncio"):
@@ -489,6 +572,10 @@ class Bed:
                 body = open(self.file_for(b["pat"], b["size"], b["seed"]), "rb")
             elif pk == "stringio":
                 body = io.StringIO(gen_text(b["size"], b["seed"]))
+            elif pk in ("rawio", "rawio_unseek"):
+                body = short_stream(dict(b, maxpiece=rs.get("maxpiece", 4096)), pk == "rawio")
+            elif pk == "pipe":
+                body = pipe_stream(b, self.cleanups)
             else:  # agen
                 ps = pieces_of(raw, rs.get("pieces") or [len(raw)])
 
@@ -596,6 +683,10 @@ class Bed:
                     for p in ps:
                         yield p
                 kw["data"] = agen()
+        elif k in ("rawio", "rawio_unseek"):
+            kw["data"] = short_stream(b, k == "rawio")
+        elif k == "pipe":
+            kw["data"] = pipe_stream(b, self.cleanups)
         elif k == "str":
             kw["data"] = gen_text(b["size"], b["seed"])
         elif k == "stringio":
@@ -740,7 +831,12 @@ class Bed:
         self.srv = {}
         self.log.records.clear()
         self.loop.exceptions.clear()
-        out = self.loop.run_until_complete(self._exchange(case))
+        try:
+            out = self.loop.run_until_complete(self._exchange(case))
+        finally:
+            for fn in self.cleanups:
+                fn()
+            self.cleanups.clear()
         out["server"] = self.srv
         out["logs"] = list(self.log.records)
         out["loop_exceptions"] = [str(c.get("message")) + " " + repr(c.get("exception")) for c in self.loop.exceptions]
@@ -768,7 +864,7 @@ def req_body_expect(rq):
     k = b["kind"]
     if k == "none":
         return ("bytes", b"")
-    if k in ("bytes", "bytearray", "memoryview", "bytesio", "file", "agen"):
+    if k in ("bytes", "bytearray", "memoryview", "bytesio", "file", "agen") + STREAM_KINDS:
         return ("bytes", gen_bytes(b["pat"], b["size"], b["seed"]))
     if k in ("str", "stringio"):
         return ("bytes", gen_text(b["size"], b["seed"]).encode("utf-8"))
@@ -839,7 +935,7 @@ def resp_without_length(case):
     if kind == "stream":
         return not rs.get("content_length") or compressed
     if kind == "payload":
-        return rs.get("payload") == "agen" or compressed
+        return rs.get("payload") in ("agen",) + STREAM_KINDS or compressed
     if kind == "file":
         return compressed
     return False
@@ -1198,7 +1294,8 @@ def gen_req(rng):
     body_p = 0.85 if m in ("POST", "PUT", "PATCH", "QUERY", "PROPFIND") else (0.0 if m in ("HEAD", "TRACE") else 0.2)
     if rng.random() < body_p:
         k = rng.choice(["bytes"] * 6 + ["str", "str", "json", "json", "form", "form", "multipart", "multipart", "bytesio", "file",
-                                       "agen", "agen", "agen", "bytearray", "memoryview", "stringio"])
+                                       "agen", "agen", "agen", "bytearray", "memoryview", "stringio",
+                                       "rawio", "rawio_unseek", "pipe"])
         if k in ("form", "multipart") and m not in ("POST", "PUT", "PATCH", "DELETE"):
             k = "bytes"           # request.post() only decodes forms for these methods
         b: dict = {"kind": k, "pat": rng.choice(BODY_PATS), "seed": rng.getrandbits(16)}
@@ -1226,6 +1323,9 @@ def gen_req(rng):
             b["size"] = pick_size(rng)
             if k == "agen":
                 b["pieces"] = split_sizes(b["size"], rng)
+            if k in STREAM_KINDS:
+                b["size"] = max(1, b["size"]) if rng.random() < 0.7 else rng.choice((65536, 131072, 200000, 262144, 300000))
+                b["maxpiece"] = rng.choice((1, 7, 100, 4096, 65536, 300000))
         rq["body"] = b
         if k in ("form", "multipart", "json"):
             rq["headers"] = [h for h in rq["headers"] if h[0].lower() != "content-type"]
@@ -1288,7 +1388,10 @@ def gen_resp(rng, rq):
         if status in EMPTY_STATUS:
             rs["no_write"] = True
     if kind == "payload":
-        rs["payload"] = rng.choice(("bytesio", "file", "agen", "stringio"))
+        rs["payload"] = rng.choice(("bytesio", "file", "agen", "stringio", "rawio", "rawio_unseek", "pipe"))
+        if rs["payload"] in STREAM_KINDS:
+            b["size"] = max(1, b["size"]) if rng.random() < 0.7 else rng.choice((65536, 131072, 200000, 262144, 300000))
+            rs["maxpiece"] = rng.choice((1, 7, 100, 4096, 65536, 300000))
         if rs["payload"] == "agen":
             rs["pieces"] = split_sizes(b["size"], rng)
         if rs["payload"] == "stringio":
